@@ -5,7 +5,7 @@ CONSTANTS Shapes, Emit
 VARIABLES in, out, ph
 vars == <<in, out, ph>>
 
-ShapesQuick == {<<1>>, <<2>>, <<3>>, <<1, 2>>, <<2, 1>>, <<2, 3>>, <<3, 2>>, <<1, 1>>, <<2, 2>>, <<2, 3, 2>>, <<1, 3, 2>>, <<2, 1, 3>>}
+ShapesQuick == {<<1>>, <<2>>, <<3>>, <<1, 2>>, <<2, 1>>, <<2, 3>>, <<3, 2>>, <<1, 1>>, <<2, 2>>, <<2, 3, 2>>, <<1, 3, 2>>, <<2, 1, 3>>, <<2, 1, 2>>}
 ShapesTiny == {<<2>>, <<1, 2>>, <<2, 3>>, <<2, 1, 3>>}
 ShapesThorough == UNION {[1..n -> 1..3] : n \in 1..3} \cup {<<2, 3, 1, 2>>, <<1, 2, 2, 3>>, <<4, 2>>, <<2, 4>>, <<4>>}
 DimNames == <<"x", "y", "z", "w">>
